@@ -242,8 +242,29 @@ impl Ctx {
         let label = "case.sd";
         let reqs: Vec<Req> =
             kept.iter().map(|(c, _)| Req { mode: c.mode, label, src: &c.src }).collect();
+        if subject::HANGS.load(std::sync::atomic::Ordering::SeqCst) >= subject::HANG_ABORT {
+            // too many non-terminating runs: stop exploring, keep what was found
+            self.capped = true;
+            self.exhaustive = false;
+            return Ok(vec![]);
+        }
         let outs = self.pool.run(&reqs)?;
         drop(reqs);
+        // cases skipped after the hang limit are not judged
+        let (kept, outs): (Vec<(Case, RefOutcome)>, Vec<Outcome>) = {
+            let mut k = Vec::with_capacity(kept.len());
+            let mut o2 = Vec::with_capacity(outs.len());
+            for (kc, oc) in kept.into_iter().zip(outs.into_iter()) {
+                if oc.class == Class::Skipped {
+                    self.capped = true;
+                    self.exhaustive = false;
+                    continue;
+                }
+                k.push(kc);
+                o2.push(oc);
+            }
+            (k, o2)
+        };
         let verdicts: Vec<Verdict> = kept
             .par_iter()
             .zip(outs.par_iter())
